@@ -4,7 +4,7 @@ import nodecheck
 PROFILE = dict(outbound=0.5)
 W = nodecheck.weights(close=2.5, readerr=2, accept=5, cer=9, tick=5)
 N_QUICK, N_THOROUGH, LENGTH = 60, 1500, 18
-THEMES = (("handshake_in", 2, 60, 3, 600), ("handshake_out", 2, 60, 3, 600), ("ready", 2, 40, 2, 2000), ("two_peers", 300, 0, None, 0))
+THEMES = (("handshake_in", 2, 60, 3, 600), ("handshake_out", 2, 60, 3, 600), ("ready", 2, 40, 2, 2000), ("two_peers", 300, 0, None, 0), ("realms", None, 0, None, 0))
 FILES = ["Props/C13.v"]
 
 
@@ -49,13 +49,13 @@ def self_closing(run):
     implementation is judged directly: afterwards the connection is in none of the node's tables, its socket is closed,
     and its peer no longer references it."""
     import nodesim as NS
-    for variant in ("plain", "stalled-with-output", "two-at-once", "two-at-once-stalled"):
+    for variant in ("plain", "stalled-with-output", "two-at-once", "two-at-once-stalled", "write-error"):
         cfg = NS.default_cfg()
         cfg["peers"].append(dict(cfg["peers"][0], name="cli1.example.net"))
         r = NS.Run(cfg, seed=3)
         try:
             r.apply(dict(ev="start", dials=[]))
-            cids = [0] if variant in ("plain", "stalled-with-output") else [0, 1]
+            cids = [0] if variant in ("plain", "stalled-with-output", "write-error") else [0, 1]
             for k in cids:
                 r.apply(dict(ev="accept", hbh0=100 + k, dials=[]))
                 r.apply(dict(ev="recv", cid=k, dials=[], frames=[NS.build_message(dict(kind="cer", host="cli%d.example.net" % k, hbh=1, e2e=1))]))
@@ -63,8 +63,14 @@ def self_closing(run):
                 for k in cids:
                     r.apply(dict(ev="stall", cid=k, on=True, dials=[]))
                     r.apply(dict(ev="recv", cid=k, dials=[], frames=[NS.build_message(dict(kind="dwr", host="cli%d.example.net" % k, hbh=7, e2e=7))]))
-            for k in cids:                       # all of them before the node runs again
-                r.remotes[k].feed(bytes(40))
+            if variant == "write-error":
+                # the socket fails hard when the node writes its answer: the connection has to go, everywhere
+                import errno
+                r.remotes[0].script_send([("err", errno.EPIPE)])
+                r.apply(dict(ev="recv", cid=0, dials=[], frames=[NS.build_message(dict(kind="dwr", host="cli0.example.net", hbh=8, e2e=8))]))
+            else:
+                for k in cids:                       # all of them before the node runs again
+                    r.remotes[k].feed(bytes(40))
             r.sim.run()
             r.sim.advance(2)
             snap = r.snapshot()
